@@ -43,54 +43,14 @@ BINARY_OPS = {"ADD", "SUB", "MUL", "DIV", "MOD", "LG_AND", "LG_OR", "CMP_GT", "C
 
 
 def check_program(R, obs, name, module, fname, inputs, family, tree=None, require_accept=True):
-    src = print_module(module)
-    comp = diff.Compiled(src)
-    R.count("programs")
-    if not comp.out.accepted:
-        R.count("rejected")
-        if require_accept:
-            rj = comp.out.reject
-            R.violation("rejected:%s:%s:%s" % (family, rj["name"], rj["cls"]),
-                        "well-typed scalar-core program rejected by %s (%s %s)" % (rj["name"], rj["cls"], rj["msg"][:80]),
-                        {"sources": {"main": src}, "case": name, "reject": rj})
+    res = diff.check_program(R, obs, name, module, fname, inputs, family, require_accept=require_accept)
+    if not res["runnable"]:
         return
-    if not comp.runnable:
-        exc = comp.out.post_exc or comp.link_exc
-        R.violation("compile-crash:%s:%s:%s" % (family, exc["cls"], exc.get("where")),
-                    "accepted program fails after the front end: %s %s" % (exc["cls"], exc["msg"][:80]),
-                    {"sources": {"main": src}, "case": name, "exc": exc})
-        return
-    gnames = [n for _, n in module.globals]
+    src = res["source"]
     separated = False
-    for args, gl in inputs:
-        ref = diff.run_ref(module, fname, args, gl)
-        R.evaluations += 1
-        if ref.status != "ok":
-            R.count("dropped_" + ref.status)
+    for (args, gl), (ref, vm) in zip(inputs, res["runs"]):
+        if ref is None or vm is None or ref.status != "ok":
             continue
-        vm = diff.run_vm(comp, fname, args, gl, obs, diff.vm_budget(ref.steps))
-        R.count("vm_runs")
-        R.count("vm_instructions", vm.steps)
-        if vm.harness:
-            R.inconclusive.append("observer error: " + vm.harness[0])
-        bad = diff.compare(ref, vm, gnames)
-        for ev in vm.events:
-            if ev["kind"] in ("read-of-undefined-value", "operand-not-a-value", "read-of-undeclared-local") and bad is None:
-                bad = "monitor: %s at %s" % (ev["kind"], ev)
-        if bad is not None:
-            if vm.status == "exception":
-                key = "vm-exception:%s:%s:%s" % (family, vm.exc["cls"], vm.where[2] if vm.where else "?")
-            elif vm.status == "nonterminating":
-                key = "nonterminating:%s" % family
-            else:
-                key = "mismatch:%s" % family
-            R.violation(key, "%s: %s" % (name, bad),
-                        {"sources": {"main": src}, "case": name, "function": fname, "inputs": {"args": args, "globals": gl},
-                         "expected": {"value": ref.value, "globals": ref.globals},
-                         "observed": {"status": vm.status, "value": vm.value, "globals": vm.globals, "exc": vm.exc},
-                         "events": vm.events})
-            continue
-        nbin = len(vm.ops & BINARY_OPS)
         if tree is not None:
             alt = directed.other_grouping(tree)
             if alt is not None:
@@ -103,10 +63,10 @@ def check_program(R, obs, name, module, fname, inputs, family, tree=None, requir
                     separated = True
             if separated:
                 R.nontriv(src, args, gl)
-        elif vm.steps >= 6 and (vm.branches >= 1 or nbin >= 2):
-            R.nontriv(src, args, gl)
-    for o in obs.ops_run:
-        R.add_to("opcodes", o)
+        else:
+            nbin = len(vm.ops & BINARY_OPS)
+            if vm.steps >= 6 and (vm.branches >= 1 or nbin >= 2):
+                R.nontriv(src, args, gl)
     if tree is not None:
         R.count("oppairs_separated" if separated else "oppairs_not_separated")
 
@@ -153,19 +113,4 @@ def finalize(M, tier):
 
 
 def replay(case):
-    from .. import nslapi
-    src = case["sources"]["main"]
-    comp = diff.Compiled(src)
-    detail = {"gate": comp.out.gate, "reject": comp.out.reject, "post": comp.out.post_exc}
-    if not comp.runnable:
-        return True, detail
-    if "inputs" not in case:
-        return False, detail
-    obs = vmobs.Observer()
-    vm = diff.run_vm(comp, case["function"], case["inputs"]["args"], case["inputs"]["globals"], obs, 2000000)
-    detail.update({"status": vm.status, "value": vm.value, "globals": vm.globals, "exc": vm.exc,
-                   "expected": case.get("expected"), "events": vm.events})
-    exp = case.get("expected") or {}
-    ok = vm.status == "ok" and sem.values_equal(exp.get("value"), vm.value) and \
-        all(sem.values_equal(v, vm.globals.get(k)) for k, v in (exp.get("globals") or {}).items())
-    return (not ok), detail
+    return diff.replay_program(case)
